@@ -31,18 +31,34 @@ theorem gsTorchLoop_eq_iterate {F : Type} (fwd bwd : F → F) (sa : F → F → 
     show gsTorchLoop fwd bwd sa field (j + 1) (sa (fwd (bwd r)) field) = _
     rw [ih]; rfl
 
+/-- a one-component loop state is written `σ × Unit` in the generated text (see `harness/translate/holograms.py: exec_for`) -/
+theorem Fld.iterate_unit {σ : Type} (g : σ → σ) (k : Nat) (r : σ) :
+    Fld.iterate (fun s : σ × Unit => (g s.1, ())) k (r, ()) = (Fld.iterate g k r, ()) := by
+  induction k generalizing r with
+  | zero => rfl
+  | succ j ih => exact ih (g r)
+
 /-- torch `gerchberg_saxton` as regenerated IS the model's `gsTorch` for every iteration count `k + 1 ≥ 1`, with
     `fwd = propagate(+distance)`, `bwd = propagate(-distance)` and `set_amplitude` applied sample by sample with the target field -/
 theorem gsTorchT_eq (prop : Prop' α) (n m : Nat) (field : Fld (Cx α)) (k : Nat) (distance : α) :
     gsTorchT prop n m field (k + 1) distance =
       gsTorch (prop distance n m) (prop (-distance) n m) (Fld.zip setAmplitudeT) field (k + 1) := by
-  simp only [gsTorchT, gsTorch, gsTorchLoop_eq_iterate, Nat.add_sub_cancel]
+  have e := Fld.iterate_unit (fun r => Fld.zip setAmplitudeT (prop distance n m (prop (-distance) n m r)) field) k field
+  simp only [gsTorchT, gsTorch, gsTorchLoop_eq_iterate, Nat.add_sub_cancel, e]
 
 /-! ### NumPy `gerchberg_saxton` -/
 
 /-- NumPy `gerchberg_saxton` as regenerated IS the model's `gsNumpy` (every iteration count, including 0) -/
 theorem gsNumpyN_eq (prop : Prop' α) (n m : Nat) (field : Fld (Cx α)) (it : Nat) (distance : α) (randomPhase : Fld α) :
-    gsNumpyN prop n m field it distance randomPhase = gsNumpy prop n m field it distance randomPhase := rfl
+    gsNumpyN prop n m field it distance randomPhase = gsNumpy prop n m field it distance randomPhase := by
+  have e := Fld.iterate_unit (gsNumpyPass prop n m (Fld.map calcAmplitude field) distance) it (gsNumpyStart n m randomPhase)
+  have h : gsNumpyN prop n m field it distance randomPhase =
+      (gsWindow n m 0 (Fld.iterate (fun s : Fld (Cx α) × Unit => (gsNumpyPass prop n m (Fld.map calcAmplitude field) distance s.1, ()))
+          it (gsNumpyStart n m randomPhase, ())).1,
+       gsWindow n m 0 (prop distance (gsPadRows n m) (gsPadCols n m)
+        (Fld.iterate (fun s : Fld (Cx α) × Unit => (gsNumpyPass prop n m (Fld.map calcAmplitude field) distance s.1, ()))
+          it (gsNumpyStart n m randomPhase, ())).1)) := rfl
+  rw [h, e]; rfl
 
 /-! ### `shift_w_double_phase`: the checkerboard interleave -/
 
